@@ -197,6 +197,55 @@ Proof.
     + exfalso. destruct (find_cand_in A (cands s) (cid cm)) as [y Hy]; [apply in_map; exact Hcm|congruence].
 Qed.
 
+
+(* ---- the Scottish rule with one seat: the main loop always runs, and its first step is the election step ---- *)
+Lemma scot_one_seat (Qb Qc : est -> Prop) : 0 <= R (integer_droop_quota A cfg) ->
+  T3 (fun s => Pre A S ZL B s /\ (forall c, In c (cands s) -> cst c <> Elected) /\ HopM s /\ R (integer_droop_quota A cfg) <= stand A S ZL (ballots s) m)
+     (scotland A cfg) SatE Qb Qc.
+Proof.
+  intros Hq.
+  change (scotland A cfg) with
+    (Do (fun s => log_action A cfg TBegin "Begin Count" (start_count A (Ok (integer_droop_quota A cfg)) s)) ;;
+     While (fun _ => true) (scot_body A cfg) ;;
+     Do (unpend_all A cfg) ;;
+     Ite (fun s => nlen (hopefuls A s) <=? seats_left A cfg s)
+       (Do (fun s => fold_left (fun s c => elect A cfg (cid c) "Elect remaining candidates" false s) (hopefuls A s) s)) Skip ;;
+     Do (fun s => fold_left (fun s c => defeat A cfg (cid c) "Defeat remaining candidates" s) (hopefuls A s) s)).
+  eapply t_seq with (M := JM).
+  { apply t_do_nc. intros s (P & Hne & Hm & Hst) Hc. destruct (begin_hq _ TBegin "Begin Count" s P Hne Hm Hq Hst Hc) as (H1 & H2 & H3 & H4).
+    split; [exact H1|split; [exact H4|right; split; assumption]]. }
+  set (E := fun s : est => NoDup (map (@cid A) (cands s)) /\ ExM s /\ SatE s).
+  assert (HE: forall (f : est -> est) (s : est), Forward.R A s (f s) -> E s -> E (f s)).
+  { intros f s Hr (Hnd & He & Hs). split; [exact (nd_R A _ _ Hr Hnd)|split; [unfold ExM; rewrite <- (R_cids A _ _ Hr); exact He|exact (r_satE _ _ Hr Hs)]]. }
+  eapply t_seq with (M := E).
+  { eapply t_post; [|apply (t_while est (@crashed A) JM E)].
+    - intros s [H|[_ H]]; [exact H|discriminate H].
+    - unfold scot_body.
+      eapply t_seq with (M := E).
+      { apply t_do. intros s [(Hnd & He & Hj) _]. pose proof (f_elect_with_quota A cfg s (ge_quota A) (fun _ _ => true) None (fun _ => true) s (R_refl A s) Hnd) as Hr.
+        split; [exact (nd_R A _ _ Hr Hnd)|split; [unfold ExM; rewrite <- (R_cids A _ _ Hr); exact He|]].
+        destruct Hj as [Hs|[Hs _]]; [exact (r_satE _ _ Hr Hs)|]. apply ewq_elects_m; [intros t c; reflexivity|exact Hs]. }
+      eapply t_seq with (M := E); [apply t_ite; [apply t_break'; intros s [H _]; exact H|apply t_skip'; intros s [H _]; exact H]|].
+      eapply t_seq with (M := E); [apply t_do; intros s H; apply HE; [apply f_new_round, R_refl|exact H]|].
+      eapply t_seq with (M := E).
+      { apply t_do. intros s H. apply (HE (fun s => set_surplus s (vsum A (map (cand_surplus A s) (pendings A s))))); [apply f_surplus, R_refl|exact H]. }
+      assert (EJ: forall s, E s -> JM s) by (intros s (H1 & H2 & H3); split; [exact H1|split; [exact H2|left; exact H3]]).
+      eapply t_seq with (M := E).
+      { apply t_ite; [|apply t_skip'; intros s [H _]; exact H].
+        eapply t_seq with (M := E); [|apply t_continue'; intros s H; apply EJ; exact H].
+        apply t_do. intros s [H _]. apply HE; [apply f_transfer_high; [apply scot_bt_ok|apply R_refl|exact (proj1 H)]|exact H]. }
+      eapply t_seq with (M := E).
+      { apply t_ite; [|apply t_skip'; intros s [H _]; exact H].
+        apply t_do. intros s [H _]. apply HE; [apply f_defeat_low; [apply scot_bt_ok|apply R_refl|exact (proj1 H)]|exact H]. }
+      apply t_ite; [apply t_break'; intros s [H _]; exact H|apply t_skip'; intros s [H _]; apply EJ; exact H]. }
+  eapply t_seq with (M := E); [apply t_do; intros s H; apply HE; [apply f_unpend_all; [apply R_refl|exact (proj1 H)]|exact H]|].
+  eapply t_seq with (M := E).
+  { apply t_ite; [|apply t_skip'; intros s [H _]; exact H].
+    apply t_do. intros s [H _]. apply (HE (fun s => fold_left (fun s c => elect A cfg (cid c) "Elect remaining candidates" false s) (hopefuls A s) s)); [apply f_elect_all; [apply R_refl|exact (proj1 H)]|exact H]. }
+  apply t_do. intros s H.
+  exact (proj2 (proj2 (HE (fun s => fold_left (fun s c => defeat A cfg (cid c) "Defeat remaining candidates" s) (hopefuls A s) s) s (f_defeat_all A cfg s _ s (R_refl A s) (proj1 H)) H))).
+Qed.
+
 End Maj.
 
 (* ================= whole counts ================= *)
@@ -253,6 +302,38 @@ Proof.
           assert (0 <= fold_right (fun mr acc => match snd mr with [] => 0 | _ :: _ => fst mr end + acc) 0 l) by (apply IH; intros m' r' H'; apply Hb; right; exact H').
           destruct (Hb mu r (or_introl eq_refl)) as [Hm _]. destruct r; lia. }
         assert (0 <= ballot_total pr * S / (1 + 1)) by (apply Z.div_pos; nia). lia.
+      + apply t_do. intros s0 Hs c Hc Em. rewrite (Status.cands_log A cfg) in Hc. exact (Hs c Hc Em). }
+  specialize (Ht fuel _ s k eq_refl He). destruct k; try contradiction. exact Ht.
+Qed.
+
+(* the Scottish rule, one seat *)
+Theorem count_majority_scotland (pr : profile) m fuel s k : wf_profile pr -> cf_nballots cfg = ballot_total pr ->
+  (exists pc, In pc (pr_cands pr) /\ pc_cid pc = m /\ pc_withdrawn pc = false) ->
+  ballot_total pr < 2 * first_prefs pr m ->
+  exec (@crashed A) fuel (count_cmd A cfg RScotland) (init_state A cfg pr) = Some (s, k) -> k <> Abort ->
+  forall c, In c (cands s) -> cid c = m -> cst c = Elected.
+Proof.
+  intros Hwf Hnbt (pc & Hpc & Epc & Hwd) Hmaj He Hk.
+  assert (Hns: 0 <= cf_nseats cfg) by (rewrite Hseat; lia).
+  pose proof (integer_quota_value A S ZL cfg) as Rq. rewrite Hseat, Hnbt in Rq. pose proof (S_pos A S ZL) as HS.
+  assert (Hbt: 0 <= ballot_total pr).
+  { unfold ballot_total. clear -Hwf. destruct Hwf as [_ Hb]. induction (pr_ballots pr) as [|[mu r] l IH]; cbn [fold_right fst snd]; [lia|].
+    assert (0 <= fold_right (fun mr acc => match snd mr with [] => 0 | _ :: _ => fst mr end + acc) 0 l) by (apply IH; intros m' r' H'; apply Hb; right; exact H').
+    destruct (Hb mu r (or_introl eq_refl)) as [Hm _]. destruct r; lia. }
+  assert (Hd: 2 * (ballot_total pr / (1 + 1)) <= ballot_total pr) by (apply (Z.mul_div_le (ballot_total pr) 2); lia).
+  assert (Hd0: 0 <= ballot_total pr / (1 + 1)) by (apply Z.div_pos; lia).
+  assert (Ht: triple (est A) (@crashed A) (fun s0 => s0 = init_state A cfg pr) (count_cmd A cfg RScotland)
+            (SatE A m) (fun _ => False) (fun _ => False)).
+  { unfold count_cmd. eapply t_seq with (M := fun s0 => Pre A S ZL (S * ballot_total pr) s0 /\ (forall c, In c (cands s0) -> cst c <> Elected) /\ HopM A m s0 /\
+                                                       R (integer_droop_quota A cfg) <= stand A S ZL (ballots s0) m).
+    - apply t_do. intros s0 ->. destruct (pre2_init A S ZL cfg Hex pr Hwf) as [P Hne]. destruct (init_state_shape A cfg pr) as (Ec & Eb & _).
+      split; [exact P|split; [exact Hne|split]].
+      + exists (with_vote (init_cand A pc) (V0' A)). split; [|split; [exact Epc|cbn [cst with_vote init_cand]; rewrite Hwd; reflexivity]].
+        unfold zero_votes. cbn [cands set_cands]. rewrite Ec, map_map. apply in_map_iff. exists pc. split; [reflexivity|exact Hpc].
+      + unfold zero_votes. cbn [ballots set_cands]. rewrite Eb, (stand_mk pr m Hwf), Rq.
+        assert (Hf: ballot_total pr / (1 + 1) + 1 <= first_prefs pr m) by lia. rewrite (Z.mul_comm S). apply Z.mul_le_mono_nonneg_r; lia.
+    - eapply t_seq with (M := SatE A m); [cbn [rule_cmd]; apply (scot_one_seat A S ZL cfg Hex m (S * ballot_total pr))|].
+      + rewrite Rq. nia.
       + apply t_do. intros s0 Hs c Hc Em. rewrite (Status.cands_log A cfg) in Hc. exact (Hs c Hc Em). }
   specialize (Ht fuel _ s k eq_refl He). destruct k; try contradiction. exact Ht.
 Qed.
